@@ -54,6 +54,11 @@ P.update({
          "Coq proof over an explicit library contract + differential correspondence on equivalent spellings; known finding outside the domain", "5 C11"),
 })
 
+P.update({
+ "C12": ("Theorems C12_race_free, C12_reads_own_map, C12_source_facts: for any number of threads running any lists of exported calls, in every interleaving from a cold start, under the Go memory model's contract for sync.Once, any two conflicting accesses to a package-level variable by different threads are ordered write < once-completion < once-return < read (10-clause invariant preserved by the five step rules), and every lookup finds the completed map of its own language as in sequential use; instantiated with the mapping() table regenerated from lang.go (one once and one map per case, computed) and the closed-world variable inventory (nothing else is ever written). Partial: that the Go runtime implements the sync.Once contract, and races inside dependencies, are outside any Gallina model; exhibited by the harness: implrun built with -race, fresh process per run, goroutines released by a barrier onto a cold package, results compared with each call run alone.",
+         "Coq proof of the synchronisation discipline over all interleavings + generated-table facts + race-detector runs from cold start", "5 C12"),
+})
+
 NOT_YET = {}
 
 def main():
